@@ -558,6 +558,8 @@ class DictT(AdtT):
         lem("get_app_r", [a, b, k], z3.Implies(z3.Not(has(a, k)), get(app(a, b), k) == get(b, k)),
             [get(app(a, b), k)], a)
         lem("has_set", [a, k, v, k2], has(st(a, k, v), k2) == z3.Or(k2 == k, has(a, k2)), [has(st(a, k, v), k2)], a)
+        lem("get_set_eq", [a, k, v], get(st(a, k, v), k) == v, [get(st(a, k, v), k)], a)
+        lem("get_set_ne", [a, k, v, k2], z3.Implies(k2 != k, get(st(a, k, v), k2) == get(a, k2)), [get(st(a, k, v), k2)], a)
         lem("disj_set", [a, b, k, v], z3.Implies(z3.And(disj(a, b), z3.Not(has(b, k))), disj(st(a, k, v), b)),
             [disj(st(a, k, v), b)], b)
 
